@@ -253,6 +253,21 @@ def oracle_enc_homog(ctx, W, L, terms, parity, e):
                  "%d strings vs %d; first difference: %r" % (len(l1), len(want), next(((a, b) for a, b in zip(l1, want) if a != b), None)))
 
 
+def oracle_enc_layout(ctx, W, L, terms, parity, rng):
+    """the encoded MATRIX does not depend on how the coefficient tensors are stored (np.nditer follows the memory
+    layout, so the order of the strings may)"""
+    name = "parity" if parity else "jw"
+    d = dict(desc_terms(L, terms), kind="enclayout", parity=parity)
+    f = encoder_of(W, parity)
+    e1, e2 = f(W.op(L, terms)), f(W.op(L, base.layout_variants(rng, terms)))
+    if not e1.pstrings or not e2.pstrings:
+        return
+    l1, l2 = enc_listing(e1), enc_listing(e2)
+    if sorted(map(repr, l1)) != sorted(map(repr, l2)):
+        ctx.fail(name + ":encoding-depends-on-memory-layout-of-the-coefficients", d, "same strings and weights for equal tensors",
+                 "%d vs %d strings" % (len(l1), len(l2)))
+
+
 def oracle_enc_history(ctx, W, L, ta, tb, parity):
     """encode(A) does not modify A; two calls give identical results; results are not changed by later calls
     (also on other operators); the operator can be used afterwards"""
@@ -316,14 +331,16 @@ def encoder_run(ctx, parity):
     W = World()
     name = "parity" if parity else "jw"
     src = "parity_encoding.py" if parity else "jordan_wigner_encoding.py"
-    ctx.trusted.append("%s: the za/zb/x list expressions, the q constants of the PauliString calls, the weight expression, the "
-                       "pruning tolerance and the keep-dimension flag are regenerated from %s (gen/fermi.py); the loop over "
-                       "terms / coefficients (np.nditer C order, zero coefficients skipped), the product expansion "
-                       "[ps @ s0 ...] + [ps @ s1 ...], refactor_sign, add_pauli_string and remove_zero_weight_strings are "
-                       "hand-modelled (Qib.Fermi.FermiModel on top of the C09 Pauli model) and tied by correspondence; np.nditer is "
-                       "assumed to visit C-contiguous coefficient arrays in C order (for other memory layouts, e.g. the "
-                       "transposed arrays of adjoint(), only the ORDER of the output strings differs - the matrix oracle "
-                       "is run on those too)"
+    ctx.trusted.append("%s: regenerated from %s on every run (gen/fermi.py, fail-closed, every statement of the function whitelisted): "
+                       "the za/zb/x list expressions, the q constants of the PauliString calls, the weight expression, the pruning "
+                       "tolerance, the keep-dimension flag AND the assembling loop statement by statement (for term / for coeff in "
+                       "np.nditer / `if coeff == 0: continue` / pstrings = [identity] / the expansion list comprehensions "
+                       "`[ps @ clist[j][0] ...] + [ps @ clist[j][1] ...]` by operator type / weight / refactor_sign + add_pauli_string); "
+                       "the property file proves that loop EQUAL to the hand model (Qib.Fermi.FermiModel.enc_raw), which the "
+                       "correspondence run executes. Hand-modelled on top of the C09 Pauli model: PauliString.__matmul__, refactor_sign, "
+                       "add_pauli_string, remove_zero_weight_strings. np.nditer is assumed to visit every multi-index once (C order for "
+                       "C-contiguous arrays; for other memory layouts, e.g. the transposed arrays of adjoint(), only the ORDER of the "
+                       "output strings differs - the matrix oracles are run on those too)"
                        % (ctx.pid, src))
     ctx.assumes.append("exact ring arithmetic with a half element h (h+h=1) for the literal 0.5; binary64 rounding is not modelled; "
                        "pruning at 1e-14 is modelled as a predicate and the theorem says what is dropped")
@@ -331,8 +348,13 @@ def encoder_run(ctx, parity):
     ctx.rules.append("single fermionic field on L<=%d sites; operators with 1-3 terms, patterns of length 0-4, coefficient tensors "
                      "dense/sparse/single/zero/int/real with dyadic Gaussian entries (exact comparison of the string list, "
                      "weights and matrices), cancellation-heavy specials (a+a + aa+, (anti)symmetric pair terms), every single "
-                     "ladder operator, every operator pair at every site pair; plus a float sweep (tolerance 1e-12) with "
-                     "tiny coefficients around the pruning threshold. non-trivial = distinct operator with at least one "
+                     "ladder operator, every operator pair at every site pair; plus a float sweep with tiny coefficients around the "
+                     "pruning threshold. PRECISE oracle on every input (rational arithmetic): the result contains every Pauli string "
+                     "whose exact coefficient exceeds 1e-14 with that weight, no duplicates, no negligible string unless it is the "
+                     "only one; a string is absent only if its exact coefficient is <= 1e-14 (+ rigorous rounding bound). Coefficient "
+                     "scales 2^e, e = -1074 ... 1000, several scales in one tensor; homogeneity encode(2^e A) = 2^e encode(A); "
+                     "products of 5-8 operators; history: encode leaves its operand unchanged, repeated/interleaved calls give "
+                     "identical results. non-trivial = distinct operator with at least one "
                      "ladder operator and a non-zero coefficient" % Lmax)
     ctx.lib(["Fermi/FermiCheck", "Fermi/FermiParity", "Fermi/FermiInst"])
     ok = ctx.translate("GenFermi", gen_fermi.generate)
@@ -431,6 +453,25 @@ def encoder_run(ctx, parity):
                 ctx.count("scaled_cases_for_the_model")
                 add("CEnc %s %s %s %s" % (ct.b(parity), ct.nat(L), cop(terms), enc_strings(enc)), dict(d, op="encode", scale=tag, e=e),
                     nontrivial(terms))
+    for L, terms in base.large_lattice_terms(rng, ctx.thorough, Ls=(6, 7, 8, 9) if ctx.thorough else (6, 7, 8)):
+        ctx.count("large_lattice_L=%d" % L)
+        if parity and L not in lads:
+            lads[L] = enc_lad_impl(W, L, True)
+        d = dict(desc_terms(L, terms), kind="enc", parity=parity)
+        try:
+            enc, E = oracle_enc(ctx, W, L, terms, parity, exact=True, lad=lads.get(L))
+            add("CEnc %s %s %s %s" % (ct.b(parity), ct.nat(L), cop(terms), enc_strings(enc)), dict(d, op="encode", large=L), True)
+        except Exception as ex:
+            ctx.fail(name + ":exception", d, "encoded operator", repr(ex))
+    for _ in range(45 if ctx.thorough else 15):
+        L = rng.choice([1, 2, 3, 3, 4])
+        terms = rand_terms(rng, L, kmax=3, budget=64)
+        ctx.count("layout")
+        d = dict(desc_terms(L, terms), kind="enclayout", parity=parity)
+        try:
+            oracle_enc_layout(ctx, W, L, terms, parity, rng)
+        except Exception as ex:
+            ctx.fail(name + ":exception", d, "encoded operator", repr(ex))
     for L, terms in base.long_product_terms(rng, ctx.thorough):
         ctx.count("long_products")
         if parity and L not in lads:
@@ -507,6 +548,11 @@ def encoder_replay(ctx, data):
     elif inp.get("kind") == "encx":
         L, terms = undesc_terms(inp)
         oracle_encx(ctx, W, L, terms, parity, lad=enc_lad_impl(W, L, True) if parity else None)
+    elif inp.get("kind") == "enclayout":
+        L, terms = undesc_terms(inp)
+        import random
+        for sd in range(8):
+            oracle_enc_layout(ctx, W, L, terms, parity, random.Random(sd))
     elif inp.get("kind") == "enchomog":
         L, terms = undesc_terms(inp)
         oracle_enc_homog(ctx, W, L, terms, parity, inp["e"])
